@@ -45,6 +45,11 @@ def C01(rep, prog, tier):
 
 
 def _answers_reach_the_caller(rep, ex):
+    _run(rep, wrappers.state_slots, ex)
+    _answers_reach_the_caller_(rep, ex)
+
+
+def _answers_reach_the_caller_(rep, ex):
     """An operator's answer is observed through single_inference / multi_inference and the manager's report: they must
     hand every query its own answer, asked in the mode of the state (ROWS.key, ROWS.columns, PAR.key, TIMEOUT.per-query:
     the operator is called with the query, the state's mode and this query's deadline in their own roles)."""
